@@ -79,3 +79,28 @@ framing_harness!(k_bf_framing_17, 17, 24);
 //@unit name=k_bf_framing_24 props=C11,C17 label=S tier=thorough fn=blowfish::Blowfish::{pad_buffer,encrypt,decrypt} bound="message length 24" stubs=encrypt_pair,decrypt_pair
 //@desc as above, length 24
 framing_harness!(k_bf_framing_24, 24, 24);
+
+fn spec_f(s: &[[u32; 256]; 4], x: u32) -> u32 {
+    (s[0][(x >> 24) as usize].wrapping_add(s[1][((x >> 16) & 0xFF) as usize]) ^ s[2][((x >> 8) & 0xFF) as usize]).wrapping_add(s[3][(x & 0xFF) as usize])
+}
+fn spec_encrypt(p: &[u32; 18], s: &[[u32; 256]; 4], mut l: u32, mut r: u32) -> (u32, u32) {
+    // textbook Blowfish: 16 rounds of (xL ^= P[i]; xR ^= F(xL); swap), undo last swap, xR ^= P[16], xL ^= P[17]
+    let mut i = 0;
+    while i < 16 { l ^= p[i]; r ^= spec_f(s, l); let t = l; l = r; r = t; i += 1; }
+    let t = l; l = r; r = t;
+    r ^= p[16]; l ^= p[17];
+    (l, r)
+}
+
+//@unit props=C11 label=B tier=parked fn=blowfish::Blowfish::{encrypt_pair,decrypt_pair} bound="cipher state = the initial pi tables (no key schedule), all 2^64 blocks (bounded counterexample finder paired with the unbounded Verus unit blowfish)"
+//@desc encrypt_pair equals the textbook 16-round network and decrypt_pair inverts it, on the un-keyed pi tables
+#[kani::proof]
+#[kani::unwind(18)]
+fn k_blowfish_pairs_pi_tables() {
+    let fish = Blowfish { p: BLOWFISH_P, s: BLOWFISH_S };
+    let (l, r): (u32, u32) = (kani::any(), kani::any());
+    let e = fish.encrypt_pair(l, r);
+    assert!(e == spec_encrypt(&fish.p, &fish.s, l, r), "encrypt_pair is the textbook network");
+    assert!(fish.decrypt_pair(e.0, e.1) == (l, r), "decrypt_pair inverts encrypt_pair");
+    kani::cover!(true, "reachable");
+}
